@@ -98,6 +98,22 @@ def _update_calls(f):
     return [n for n in ast.walk(f.node) if isinstance(n, ast.Call) and isinstance(n.func, ast.Attribute) and n.func.attr == 'update']
 
 
+def _hit_test(t):
+    """(cache expr, key expr) of a membership test:  key in cache  |  key in cache.keys()  |  cache.get(key) is not None
+    (the last form relies on no operation returning None; a test on the truth value of the cached result is NOT a membership test:
+    0.0 and [] are legitimate results)"""
+    if isinstance(t, ast.Compare) and len(t.ops) == 1:
+        if isinstance(t.ops[0], ast.In):
+            c = t.comparators[0]
+            if isinstance(c, ast.Call) and isinstance(c.func, ast.Attribute) and c.func.attr == 'keys' and not c.args:
+                c = c.func.value
+            return (c, t.left)
+        if isinstance(t.ops[0], ast.IsNot) and isinstance(t.comparators[0], ast.Constant) and t.comparators[0].value is None \
+                and isinstance(t.left, ast.Call) and isinstance(t.left.func, ast.Attribute) and t.left.func.attr == 'get' and len(t.left.args) == 1:
+            return (t.left.func.value, t.left.args[0])
+    return None
+
+
 def find_memo(ix, uv):
     """Look for the memo in the visit method resolved on the update visitor.
     Returns dict(cache=attr, key=expr text, visit=FuncInfo, hit_stores_results=bool, renew=[(FuncInfo, node)]) or None."""
@@ -107,11 +123,12 @@ def find_memo(ix, uv):
     nodep = v.node.args.args[1].arg
     memo = None
     for st in v.node.body:
-        if isinstance(st, ast.If) and isinstance(st.test, ast.Compare) and len(st.test.ops) == 1 and isinstance(st.test.ops[0], ast.In):
-            cache = E.self_loc(st.test.comparators[0])
+        hit = _hit_test(st.test) if isinstance(st, ast.If) else None
+        if hit is not None:
+            cache = E.self_loc(hit[0])
             if cache is None:
                 continue
-            key = ast.unparse(st.test.left).replace(nodep, 'node')
+            key = ast.unparse(hit[1]).replace(nodep, 'node')
             returns = [s for s in ast.walk(ast.Module(body=st.body, type_ignores=[])) if isinstance(s, ast.Return)]
             if not returns:
                 continue
